@@ -1334,12 +1334,12 @@ fn start_sentinel(out_path: String, prop: String, engine: String) {
     std::thread::spawn(move || {
         // the main thread's kernel id is the process id
         let main_tid: Arc<Mutex<Vec<u32>>> = Arc::new(Mutex::new(vec![std::process::id()]));
-        let mut idle = mmv::report::IdleWatch::for_threads(10, Arc::clone(&main_tid));
+        let mut idle = mmv::report::IdleWatch::for_threads(30, Arc::clone(&main_tid));
         loop {
             std::thread::sleep(Duration::from_millis(100));
             let watched = CURRENT_PROG.lock().map(|g| g.1).unwrap_or(false);
             if watched {
-                idle = mmv::report::IdleWatch::for_threads(10, Arc::clone(&main_tid));
+                idle = mmv::report::IdleWatch::for_threads(30, Arc::clone(&main_tid));
                 continue;
             }
             if idle.idle() {
@@ -1350,7 +1350,10 @@ fn start_sentinel(out_path: String, prop: String, engine: String) {
                 let v = Violation {
                     props: vec!["C09", "C08"],
                     sig: "progress:call-blocks-forever".into(),
-                    detail: "after the worker threads had finished (or in a single-threaded run) a call of the main thread into the cache has not returned: for 10 s the main thread was seen blocked (kernel state S/D, never runnable) and consumed no CPU time; it is blocked inside the call and no other thread exists to unblock it".into(),
+                    detail: format!("after the worker threads had finished (or in a single-threaded run) a call of the main thread into the cache has not returned: for 30 s the main thread was seen blocked (kernel state S/D, never runnable) and consumed no CPU time; it is blocked inside the call and no other thread exists to unblock it [{}]", {
+                        let all: Vec<u32> = std::fs::read_dir("/proc/self/task").map(|d| d.filter_map(|e| e.ok().and_then(|e| e.file_name().to_str().and_then(|s| s.parse().ok()))).collect()).unwrap_or_default();
+                        mmv::report::thread_diagnostics(&all)
+                    }),
                     op_index: 0,
                 };
                 if wanted(&v, &prop) {
@@ -2400,11 +2403,29 @@ fn gen_observed_prog(rng: &mut Rng) -> Prog {
     Prog { cfg, threads: vec![ops], idle }
 }
 
+/// `run_observed` on a helper thread, given up after 20 s of wall-clock time (no verdict either way:
+/// the run is skipped and counted; its threads and its cache are left behind).
+fn run_observed_bounded(cfg: &Config, ops: &[COp], observers: usize, oseed: u64) -> Option<(ObsOutcome, u64, u64)> {
+    let (tx, rx) = std::sync::mpsc::channel();
+    let cfg2 = cfg.clone();
+    let ops2 = ops.to_vec();
+    std::thread::spawn(move || {
+        let r = run_observed(&cfg2, &ops2, observers, oseed);
+        let _ = tx.send(r);
+    });
+    rx.recv_timeout(Duration::from_secs(20)).ok()
+}
+
 /// The first difference between the solo run and an observed run, if any.
 fn observed_difference(prog: &Prog, observers: usize, oseed: u64, stats: &mut mmv::monitor::Stats) -> Option<String> {
     let ops = &prog.threads[0];
-    let (solo, _, _) = run_observed(&prog.cfg, ops, 0, 0);
-    let (obs, made, held) = run_observed(&prog.cfg, ops, observers, oseed);
+    let (solo, obs, made, held) = match (run_observed_bounded(&prog.cfg, ops, 0, 0), run_observed_bounded(&prog.cfg, ops, observers, oseed)) {
+        (Some((solo, _, _)), Some((obs, made, held))) => (solo, obs, made, held),
+        _ => {
+            stats.inc("observed_runs_given_up_after_20s");
+            return None;
+        }
+    };
     stats.add("observations_made_beside_the_writer", made);
     stats.add("entry_references_held_beside_the_writer", held);
     if solo.results != obs.results {
@@ -2442,6 +2463,10 @@ fn mode_observers(args: &Args) {
         report.evaluations += 1;
         set_current(&prog.text("observers", &format!("{}", observers), oseed), false);
         report.stats.inc("observed_programs");
+        if report.stats.c.get("observed_runs_given_up_after_20s").copied().unwrap_or(0) >= 3 {
+            report.notes.push(format!("stopped after {} programs: three runs were given up", pi));
+            break;
+        }
         if let Some(why) = observed_difference(&prog, observers, oseed, &mut report.stats) {
             report.stats.inc("violating_runs");
             let v = Violation { props: vec!["C15"], sig: "pure:observer-threads-changed-behaviour".into(), detail: why, op_index: 0 };
@@ -2453,10 +2478,18 @@ fn mode_observers(args: &Args) {
         }
     }
     mmv::types::obj_track_set(true);
+    let given_up = report.stats.c.get("observed_runs_given_up_after_20s").copied().unwrap_or(0);
+    if given_up > 0 {
+        report.notes.push(format!("{} observed run(s) did not finish within 20 s of wall-clock time and were skipped without a verdict", given_up));
+    }
     if out_path.is_empty() {
         println!("{}", report.to_json().dump());
     } else {
         report.write(&out_path);
+    }
+    if given_up > 0 {
+        // threads of the skipped runs may still be alive
+        mmv::report::exit_now(0);
     }
 }
 
@@ -2508,7 +2541,8 @@ fn main() {
     }
     let mode_name = args.str("mode", "baton");
     // (the interpreter has no /proc, and it wants every thread joined before the program ends)
-    if !cfg!(miri) && matches!(mode_name.as_str(), "baton" | "park" | "stress" | "chase" | "observers") {
+    // (not in the observers mode: its runs are bounded by a timeout of their own and never end a shard)
+    if !cfg!(miri) && matches!(mode_name.as_str(), "baton" | "park" | "stress" | "chase") {
         start_sentinel(args.str("out", ""), args.str("prop", "all"), format!("conmon-{}", mode_name));
     }
     match mode_name.as_str() {
